@@ -1,7 +1,11 @@
-From Coq Require Import List NArith Bool Lia.
+(* C45 proofs, part 1: the text pipeline (indent / split / join), the exception hierarchy,
+   _safe_unicode. *)
+From Coq Require Import List NArith ZArith Bool Lia String.
 Import ListNotations.
-From TV Require Import C45.Model.
+From TV Require Import C14.Utf8 C14.Utf8Proofs C45.Model.
 Local Open Scope N_scope.
+
+(* ---------------- indentation ---------------- *)
 
 Lemma sp_not_nl : (SP =? NL) = false.
 Proof. reflexivity. Qed.
@@ -39,50 +43,173 @@ Proof.
     eapply IH; [exact H|reflexivity].
 Qed.
 
-Theorem format_newlines_indented : forall r, nl_indented (format r) = true.
-Proof. intro r. unfold format. apply indent_nl_indented. Qed.
-
-Theorem format_no_forged_entry : forall r pre post,
-  format r = pre ++ NL :: post -> exists t, post = SP :: SP :: SP :: SP :: t.
-Proof. intros r pre post E. eapply nl_indented_spec; [apply format_newlines_indented|exact E]. Qed.
-
-(* indentation is the only change: removing it gives the un-indented text back *)
-Definition unindented (r : record) : text :=
-  match exc_text r with
-  | [] => formatted0 r
-  | e => join_nl (rstrip (formatted0 r) :: split_nl e)
-  end.
-
-Theorem format_content_preserved : forall r, unindent (format r) = unindented r.
-Proof. intro r. unfold format, unindented. rewrite unindent_indent. reflexivity. Qed.
-
 Lemma split_nl_aux_nonempty : forall s cur, split_nl_aux cur s <> [].
 Proof.
   induction s as [|c s IH]; intro cur; cbn [split_nl_aux]; [discriminate|].
   destruct (c =? NL); [discriminate|apply IH].
 Qed.
 
-(* the exception text is not lost either: joining the split lines gives it back *)
+(* joining the split lines gives the text back *)
+Lemma join_cons : forall l ls, ls <> [] -> join_nl (l :: ls) = l ++ NL :: join_nl ls.
+Proof. intros l [|l2 ls] Hn; [contradiction|reflexivity]. Qed.
+
 Lemma join_split_aux : forall s cur, join_nl (split_nl_aux cur s) = rev cur ++ s.
 Proof.
   induction s as [|c s IH]; intro cur; cbn [split_nl_aux].
   - cbn [join_nl]. rewrite app_nil_r. reflexivity.
   - destruct (c =? NL) eqn:E.
     + apply N.eqb_eq in E; subst c.
-      assert (H : forall l ls, ls <> [] -> join_nl (l :: ls) = l ++ NL :: join_nl ls).
-      { intros l [|l2 ls] Hn; [contradiction|reflexivity]. }
-      rewrite H; [rewrite IH; reflexivity|apply split_nl_aux_nonempty].
+      rewrite join_cons; [rewrite IH; reflexivity|apply split_nl_aux_nonempty].
     + rewrite IH. cbn [rev]. rewrite <- app_assoc. reflexivity.
 Qed.
 Theorem join_split_nl : forall s, join_nl (split_nl s) = s.
 Proof. intro s. unfold split_nl. rewrite join_split_aux. reflexivity. Qed.
 
-(* non-vacuity / sanity: a message that tries to forge an entry *)
-Example forged_message_is_indented :
-  format {| prefix := [91;73;93;32]; message := [97;10;91;69;93;32;98]; suffix := []; exc_text := [] |}
-  = [91;73;93;32;97;10;32;32;32;32;91;69;93;32;98].
+(* the first line of a split starts with what was accumulated *)
+Lemma split_nl_aux_head : forall s cur, exists l ls, split_nl_aux cur s = (rev cur ++ l) :: ls.
+Proof.
+  induction s as [|c s IH]; intro cur; cbn [split_nl_aux].
+  - exists [], []. rewrite app_nil_r. reflexivity.
+  - destruct (c =? NL).
+    + exists [], (split_nl_aux [] s). rewrite app_nil_r. reflexivity.
+    + destruct (IH (c :: cur)) as (l & ls & E). rewrite E. exists (c :: l), ls.
+      cbn [rev]. rewrite <- app_assoc. reflexivity.
+Qed.
+
+Definition starts_indented (l : text) : Prop := exists t, l = SP :: SP :: SP :: SP :: t.
+
+(* line view of the property: every line after the first starts with the indent *)
+Lemma nl_indented_lines_aux : forall s cur,
+  nl_indented s = true -> Forall starts_indented (tl (split_nl_aux cur s)).
+Proof.
+  induction s as [|c s IH]; intros cur H; cbn [split_nl_aux].
+  - constructor.
+  - cbn [nl_indented] in H. apply andb_true_iff in H as [H1 H2].
+    destruct (c =? NL) eqn:E.
+    + cbn [tl].
+      destruct s as [|a [|b [|c' [|d t]]]]; try discriminate.
+      repeat (apply andb_true_iff in H1 as [H1 ?]).
+      repeat match goal with X : (_ =? SP) = true |- _ => apply N.eqb_eq in X; subst end.
+      pose proof (IH [] H2) as F.
+      cbn [split_nl_aux] in F |- *. rewrite sp_not_nl in F |- *.
+      destruct (split_nl_aux_head t [SP; SP; SP; SP]) as (l & ls & E2).
+      rewrite E2 in F |- *. constructor; [|exact F].
+      exists l. reflexivity.
+    + apply IH. exact H2.
+Qed.
+
+Lemma nl_indented_lines : forall s,
+  nl_indented s = true -> Forall starts_indented (tl (split_nl s)).
+Proof. intros s H. apply nl_indented_lines_aux. exact H. Qed.
+
+Lemma has_nl_app : forall a b, has_nl (a ++ b) = has_nl a || has_nl b.
+Proof. intros a b. unfold has_nl. apply existsb_app. Qed.
+
+(* ---------------- exception hierarchy ---------------- *)
+
+Lemma exc_eqb_eq : forall a b, exc_eqb a b = true <-> a = b.
+Proof.
+  intros a b; split.
+  - destruct a, b; try reflexivity; intro H; vm_compute in H; discriminate.
+  - intros ->. unfold exc_eqb. apply N.eqb_refl.
+Qed.
+
+(* the fuel is enough: every class reaches BaseException, and one more unit changes nothing *)
+Lemma is_subclass_base : forall c, is_subclass c EBaseException = true.
+Proof. destruct c; reflexivity. Qed.
+Lemma is_subclass_fuel_enough : forall c h, is_subclass_fuel 7 c h = is_subclass c h.
+Proof. destruct c, h; reflexivity. Qed.
+Lemma is_subclass_refl : forall c, is_subclass c c = true.
+Proof. destruct c; reflexivity. Qed.
+
+Definition not_an_Exception : list exc_class :=
+  [EBaseException; EKeyboardInterrupt; ESystemExit; EGeneratorExit; EUserBase].
+
+(* exactly the five classes outside Exception escape `except Exception` *)
+Lemma except_Exception_spec : forall c,
+  except_catches [EException] c = negb (existsb (exc_eqb c) not_an_Exception).
+Proof. destruct c; reflexivity. Qed.
+
+Lemma is_subclass_Exception_catches : forall c,
+  is_subclass c EException = true -> except_catches FORMAT_EXCEPT c = true.
+Proof. intros c H. unfold except_catches, FORMAT_EXCEPT. cbn [existsb]. rewrite H. reflexivity. Qed.
+
+(* ---------------- _safe_unicode ---------------- *)
+
+Lemma safe_unicode_str : forall t, safe_unicode (PStr t) = Returned (PStr t).
 Proof. reflexivity. Qed.
-Example with_exception_text :
-  format {| prefix := [91;69;93;32]; message := [109;32;32]; suffix := []; exc_text := [84;10;120] |}
-  = [91;69;93;32;109;10;32;32;32;32;84;10;32;32;32;32;120].
+Lemma safe_unicode_none : safe_unicode PNone = Returned PNone.
 Proof. reflexivity. Qed.
+
+Lemma safe_unicode_bytes : forall b,
+  safe_unicode (PBytes b)
+  = Returned (PStr (match utf8_decode b with Some t => t | None => repr_bytes b end)).
+Proof.
+  intro b. unfold safe_unicode, to_unicode. destruct (utf8_decode b); reflexivity.
+Qed.
+
+Lemma safe_unicode_other : forall ty,
+  safe_unicode (POther ty) = Raised ETypeError (exc_repr1 "TypeError"%string (TO_UNICODE_MSG ++ ty)).
+Proof. reflexivity. Qed.
+
+(* what str.encode("utf-8") produced is decoded back *)
+Lemma safe_unicode_roundtrip : forall t b,
+  utf8_encode t = Some b -> safe_unicode (PBytes b) = Returned (PStr t).
+Proof. intros t b E. rewrite safe_unicode_bytes, (utf8_roundtrip t b E). reflexivity. Qed.
+
+Lemma safe_unicode_result : forall v r,
+  safe_unicode v = Returned r -> (exists t, r = PStr t) \/ (r = PNone /\ v = PNone).
+Proof.
+  intros [| t | b | ty] r H.
+  - injection H as <-. right; auto.
+  - injection H as <-. left; eauto.
+  - rewrite safe_unicode_bytes in H. injection H as <-. left; eauto.
+  - discriminate.
+Qed.
+
+Lemma safe_lines_id : forall ls, safe_lines ls = Returned ls.
+Proof.
+  induction ls as [|l ls IH]; [reflexivity|].
+  cbn [safe_lines]. rewrite safe_unicode_str. cbn [bind]. rewrite IH. reflexivity.
+Qed.
+
+Lemma hexd_not_nl : forall n, (hexd n =? NL) = false.
+Proof.
+  intro n. unfold hexd, NL. destruct (n <? 10) eqn:E; apply N.eqb_neq.
+  - apply N.ltb_lt in E. lia.
+  - lia.
+Qed.
+
+Lemma repr_byte_no_nl : forall q c, (q =? NL) = false -> has_nl (repr_byte q c) = false.
+Proof.
+  intros q c Hq. unfold repr_byte.
+  destruct ((c =? q) || (c =? 92)) eqn:E1.
+  - apply orb_true_iff in E1 as [E|E]; apply N.eqb_eq in E; subst c.
+    + cbn [has_nl existsb]. rewrite Hq. reflexivity.
+    + reflexivity.
+  - destruct (c =? 9); [reflexivity|].
+    destruct (c =? 10) eqn:E10; [reflexivity|].
+    destruct (c =? 13); [reflexivity|].
+    destruct ((c <? 32) || (127 <=? c)).
+    + cbn [has_nl existsb]. rewrite !hexd_not_nl. reflexivity.
+    + cbn [has_nl existsb]. unfold NL. rewrite E10. reflexivity.
+Qed.
+
+Lemma has_nl_flat_map : forall (f : N -> text) l,
+  (forall c, has_nl (f c) = false) -> has_nl (flat_map f l) = false.
+Proof.
+  intros f l H. induction l as [|c l IH]; [reflexivity|].
+  cbn [flat_map]. rewrite has_nl_app, H, IH. reflexivity.
+Qed.
+
+(* the repr() fallback for undecodable bytes contains no newline at all *)
+Lemma repr_bytes_no_nl : forall b, has_nl (repr_bytes b) = false.
+Proof.
+  intro b. unfold repr_bytes.
+  assert (Hq : (bytes_quote b =? NL) = false).
+  { unfold bytes_quote. destruct (_ && _); reflexivity. }
+  cbn [has_nl existsb]. fold (has_nl (flat_map (repr_byte (bytes_quote b)) b ++ [bytes_quote b])).
+  rewrite Hq. cbn [orb].
+  rewrite has_nl_app, has_nl_flat_map by (intro c; apply repr_byte_no_nl; exact Hq).
+  cbn [has_nl existsb orb]. rewrite Hq. reflexivity.
+Qed.
